@@ -18,7 +18,7 @@ GInit == Init /\ hist = <<>>
 \* spec -> code behaviours use the unlimited poll only (its reply is dictated)
 DNext == \/ \E n \in Nodes, t \in Txs : Announce(n, t) \/ Deliver(n, t)
          \/ \E n \in Nodes : Poll(n)
-         \/ Tick
+         \/ Tick \/ CleanAll
 GNext == /\ Len(hist) < Depth
          /\ DNext
          /\ hist' = Append(hist, Rec')
